@@ -128,8 +128,11 @@ def dyadic(a, qbits=None, mbits=None):
     """True when sums of the values of `a` are exact in any order."""
     a = np.asarray(a)
     k = a.dtype.kind
-    if k in "biu":
+    if k == "b":
         return True
+    if k in "iu":
+        # float64 accumulation (mean, float contractions) is exact only below 2**53
+        return a.size == 0 or float(np.abs(a.astype(np.float64)).sum()) < 2.0**52
     if k not in "fc":
         return False
     if k == "c":
@@ -262,6 +265,15 @@ class Skip(Exception):
 def need(cond):
     if not cond:
         raise Skip()
+
+
+def zero_sign_safe(v):
+    """The sign of a floating zero is order-dependent (-0.0 + 0.0 == 0.0, a sum that starts from
+    +0.0 loses a -0.0) and `same` treats the two zeros as equal; ops that are discontinuous in that
+    sign (x / 0, arctan2, copysign, signbit) only take inputs that cannot hold a floating zero.
+    Integer inputs have one zero and stay eligible, so division by zero is still exercised."""
+    a = v.np
+    return a.dtype.kind not in "fc" or a.size == 0 or not bool(np.any(a == 0))
 
 
 def norm_axis(ax, nd):
@@ -447,9 +459,11 @@ def _g_unary(g, ins):
     if fn in ("log1p",):
         need(a.np.size == 0 or np.nanmin(a.np) > -0.9)
     if fn == "reciprocal":
-        need(a.inx == 0)
+        need(a.inx == 0 and zero_sign_safe(a))
     if fn in ("floor", "ceil", "trunc", "rint", "sign", "signbit"):
         need(a.inx == 0)
+    if fn == "signbit":
+        need(zero_sign_safe(a))
     if fn in ("sqrt", "cbrt", "log1p"):
         need(a.inx == 0)  # unbounded derivative (at 0 / -1) amplifies an inexact input without bound
     return {"fn": fn}
@@ -521,8 +535,12 @@ def _g_binary(g, ins):
         need(a.mag * b.mag < 1e12)
     if fn == "true_divide":
         need(b.np.size == 0 or (a.inx == 0 and b.inx == 0))
+        need(zero_sign_safe(b))
     if fn == "copysign":
-        need(b.inx == 0)
+        need(b.inx == 0 and zero_sign_safe(b))
+    if fn == "arctan2":
+        # discontinuous across the negative real axis and in the signs of zeros
+        need(a.inx == 0 and b.inx == 0 and zero_sign_safe(a) and zero_sign_safe(b))
     if {a.dtype, b.dtype} & {np.dtype("u1"), np.dtype("i1")} and fn in ("floor_divide", "mod"):
         pass
     need(math.prod(np.broadcast_shapes(a.shape, b.shape)) <= g.max_size)
@@ -564,9 +582,9 @@ def _g_scalar(g, ins):
         if isinstance(s, float) and a.kind in "iu" and fn in ("floor_divide", "mod"):
             s = 2
     if fn in ("floor_divide", "mod") and a.kind == "f":
-        need(a.inx == 0)
+        need(a.inx == 0 and (not rev or zero_sign_safe(a)))
     if fn == "true_divide" and rev:
-        need(a.inx == 0)  # s / x amplifies without bound near x == 0
+        need(a.inx == 0 and zero_sign_safe(a))  # s / x amplifies without bound near x == 0
     return {"fn": fn, "s": s, "rev": rev}
 
 
@@ -1554,7 +1572,12 @@ class Prog:
 
     # -- variables
     def _add(self, opname, in_ids, p, npv, dav, inx, depth, eps=0.0):
-        v = Var(len(self.vars), npv, dav, inx=inx, mag=absmax(npv), depth=depth, eps=eps)
+        mag = absmax(npv)
+        if inx > 0:
+            # absolute error is inherited: a bounded function (sin, tanh, a cancelling sum) of a large
+            # inexact input is only as accurate as eps * |input|, so carry the history's magnitude
+            mag = max([mag] + [self.vars[i].mag for i in in_ids if self.vars[i].inx > 0])
+        v = Var(len(self.vars), npv, dav, inx=inx, mag=mag, depth=depth, eps=eps)
         self.vars.append(v)
         self.steps.append({"op": opname, "in": list(in_ids), "p": p})
         return v
